@@ -58,7 +58,7 @@ type c04case struct {
 	Sizes   []int  `json:"sizes"`   // Sizes[i] = number of records of batch number i (0 = empty batch)
 }
 
-var c04writers = []string{"fasta", "fastq", "json", "csv", "sequence", "sequence+q"}
+var c04writers = []string{"fasta", "fastq", "json", "csv", "csv-auto", "sequence", "sequence+q"}
 
 // c04format gives the format the output must have. WriteSequence looks at the first batch it
 // receives: FASTQ when that batch is not empty and its first record has qualities, FASTA otherwise.
@@ -212,6 +212,18 @@ func c04run(c c04case, mode string) (obs c04obs, problem string) {
 			close(done)
 			return
 		}
+		fedAhead := false
+		if c.Writer == "csv-auto" {
+			// WriteCSV in auto-column mode blocks on the first batch before it returns: feed from a
+			// second goroutine (still ONE pusher, so the arrival order is the push order)
+			fedAhead = true
+			go func() {
+				for _, o := range c.Arrival {
+					it.Push(batches[o])
+				}
+				it.Done()
+			}()
+		}
 		switch c.Writer {
 		case "fasta":
 			out, err = WriteFasta(it, sink, opts...)
@@ -221,6 +233,8 @@ func c04run(c c04case, mode string) (obs c04obs, problem string) {
 			out, err = WriteJSON(it, sink, opts...)
 		case "csv":
 			out, err = WriteCSV(it, sink, opts...)
+		case "csv-auto": // obicsv --auto: the attribute columns are deduced from the first batch
+			out, err = WriteCSV(it, sink, append(append([]WithOption{}, opts...), CSVAutoColumn(true))...)
 		default:
 			panic("c04: unknown writer " + c.Writer)
 		}
@@ -231,10 +245,12 @@ func c04run(c c04case, mode string) (obs c04obs, problem string) {
 			for out.Next() {
 			}
 		}()
-		for _, o := range c.Arrival {
-			it.Push(batches[o])
+		if !fedAhead {
+			for _, o := range c.Arrival {
+				it.Push(batches[o])
+			}
+			it.Done()
 		}
-		it.Done()
 		obiiter.WaitForLastPipe()
 		close(done)
 	}()
@@ -391,6 +407,42 @@ func c04content(c c04case, text []byte) (string, string) {
 		if d := c04seqDiag(got, want); d != "" {
 			return d, fmt.Sprintf("ids in array %v want %v", got, want)
 		}
+	case "csv-auto":
+		if len(c.Sizes) == 0 {
+			return "", ""
+		}
+		// which attribute columns the header holds is not constrained; one header line (holding the id
+		// column), then one row per record in order
+		rd := csv.NewReader(bytes.NewReader(text))
+		rd.FieldsPerRecord = -1
+		rows, err := rd.ReadAll()
+		if err != nil {
+			return "invalid-csv", fmt.Sprintf("%v; output %q", err, c04clip(text))
+		}
+		idcol := -1
+		if len(rows) > 0 {
+			for i, h := range rows[0] {
+				if h == "id" {
+					idcol = i
+				}
+			}
+		}
+		if len(rows) == 0 || idcol < 0 {
+			return "header-missing", fmt.Sprintf("first row is not a header; output %q", c04clip(text))
+		}
+		got := []string{}
+		for _, row := range rows[1:] {
+			if strings.Join(row, ",") == strings.Join(rows[0], ",") {
+				return "header-repeated", fmt.Sprintf("output %q", c04clip(text))
+			}
+			if len(row) != len(rows[0]) {
+				return "invalid-csv", fmt.Sprintf("row %v has %d fields, header has %d", row, len(row), len(rows[0]))
+			}
+			got = append(got, row[idcol])
+		}
+		if d := c04seqDiag(got, want); d != "" {
+			return d, fmt.Sprintf("ids in rows %v want %v", got, want)
+		}
 	case "csv":
 		if len(c.Sizes) == 0 {
 			return "", "" // the statement constrains CSV only for a stream of at least one batch
@@ -546,7 +598,7 @@ func c04inputClass(c c04case) string {
 }
 
 func c04writerName(w string) string {
-	return map[string]string{"fasta": "WriteFasta", "fastq": "WriteFastq", "json": "WriteJSON", "csv": "WriteCSV",
+	return map[string]string{"fasta": "WriteFasta", "fastq": "WriteFastq", "json": "WriteJSON", "csv": "WriteCSV", "csv-auto": "WriteCSV(auto-columns)",
 		"sequence": "WriteSequence", "sequence+q": "WriteSequence"}[w]
 }
 
@@ -607,7 +659,7 @@ func TestVerifC04(t *testing.T) {
 			r.Count("drain>=2", 1)
 		}
 		modes := []string{c04plain, c04gzip}
-		if c.Writer == "json" || c.Writer == "csv" {
+		if c.Writer == "json" || c.Writer == "csv" || c.Writer == "csv-auto" {
 			modes = append(modes, c04noclose)
 		}
 		plainFails := map[string]bool{}
